@@ -18,16 +18,19 @@ theorem trie_build_represents (a : Arpa) (wf : WellFormed a) … :
     buildTrie fadd order bound start (gramsOf a) = .ok M → ∃ rng, Represents fval M (Table.build a) rng
 theorem trie_end_to_end … : (fullScore (TrieLM.search fval M) s w).1.prob = score a h w      -- = trie_prob ∘ trie_build_represents
 ```
-What is proved towards it (general, unbounded): `trie_build_represents_partial` (the `BlankManager` pass: blanks are exactly
-non-real proper prefixes based on the longest real proper prefix; missing-unigram error only when a unigram is missing),
-`trie_write_frame` (memory = OR of pairwise disjoint fields ⇒ every field reads back, for any number of writes),
-the strict order lemmas of the visit order.  Gaps, named: (G1) `visitOrder` of a duplicate-free list is `KeysLt` (insertion
-sort + trichotomy of `keyLt`; any batching gives the same list by C16 `extSort_unique`); (G2) the field list of `ofTable` is
-pairwise disjoint (from C04 `trie_regions` + record arithmetic) and the level/`childStarts` combinatorics give sorted child
-ranges = `rngOf` — together with `trie_write_frame` this is `Represents (ofTable bt …)`; (G3) `blankProb` with exact addition
-= `score a ctx w` and the extension marks = `Table.build`'s `extendsRight` (needs a value encoding between `Arpa`'s rationals
-and float bits); (G4) `ofTable` for ArrayBhiksha / SeparatelyQuantize layouts (only compared through lookups).
-G2 is discharged *per instance* on every generated model by the verified checker (stream `triebuild`).
+Status after round 4 (all general, unbounded unless marked):
+* G1 CLOSED — `visit_order_strict`: the insertion-sorted visit order of a list that passes the duplicate check is strictly
+  increasing; `trie_build_visit` applies the `BlankManager` theorem to it.
+* G2 CLOSED modulo `ShapeOK` — `ofTable_represents`: `Represents (ofTable bt …) (tableOf (ftOf bt))` for every well-formed bit
+  table (`BTOK`, `ValsOK`), from `trie_regions_read` (regions of fixed-stride records ⇒ every slot reads back), the level
+  combinatorics (Proofs/TrieLevels.lean) and the C20 read lemmas; corollary `trie_build_refines` (FullScore over the memory
+  the model builder writes = FullScore over the bit table, no `Represents` hypothesis).  `ShapeOK` (G2b, open in general) =
+  the layout facts of the C04 model for the plain shape: widths `RequiredBits`, `total_bits = word+63+inline`, regions in
+  file order; proved for the example by `decide` (`example_shape_ok`), and the layout model itself is compared with the real
+  `SetupMemory` on every run of check C04.
+* G3 OPEN — `blankProb` / extension marks = `Table.build a` (value encoding between exact rationals and float bits), hence
+  `trie_build_represents`, `trie_end_to_end` and `trie_end_to_end_closed` are NOT proved.
+* G4 OPEN — `ofTable` for ArrayBhiksha / SeparatelyQuantize layouts (compared through lookups only).
 -/
 namespace KV.C03TrieBuild
 open KV.Arpa KV.TrieLM KV.TrieBuild
